@@ -36,6 +36,19 @@ def expected_tick(ex, r, s):
     return s.etick
 
 
+def state_index(r, full, s):
+    """Index k of the trajectory state a (side) step starts from, by content (digest and
+    time), independent of the order in which the driver computes things; falls back on the
+    event order when the input is no trajectory state at all."""
+    key = (s.dig_in, float(s.t_in).hex())
+    if key == (r.f_before[0], float(r.f_before[1]).hex()):
+        return 0
+    for k in range(len(full), 0, -1):
+        if (full[k - 1].dig_out, float(full[k - 1].t_out).hex()) == key:
+            return k
+    return len([x for x in full if x.idx < s.idx])
+
+
 class V:
     """One violation."""
 
@@ -315,7 +328,7 @@ def check_c07(r, ex, stats):
             continue
         s = cand[0]
         # state of the trajectory when the side step was taken
-        k = len([x for x in full if x.idx < s.idx])
+        k = state_index(r, full, s)
         cur_dig = r.f_before[0] if k == 0 else full[k - 1].dig_out
         cur_t = times[k]
         h = float(np.min(expected_tick(ex, r, s)))  # CFL step of the state the side step starts from
@@ -458,7 +471,7 @@ def check_c08(r, ex, stats):
         cand = [s for s in side if s.dig_out == sn[0] and feq(s.t_out, sn[1])]
         if cand:
             s = cand[0]
-            kk = len([x for x in full if x.idx < s.idx])
+            kk = state_index(r, full, s)
             if s.dt_is_array or not (s.dt > 0):
                 continue
             stats["P2"] += 1
